@@ -244,11 +244,14 @@ PROPS = {
         trusted=S_COMMON + T_SOLVER + ["model: np.mean(list) = ghost prefix sum / length"],
     ),
     "C18": dict(
-        functions=[CT + "Continuum." + m for m in ("to_csv", "from_csv", "add_annotation", "from_rttm", "__iter__", "add", "__init__")] + [CT + "Unit.__lt__"],
+        functions=[CT + "Continuum." + m for m in ("to_csv", "from_csv", "add_annotation", "from_rttm", "add_timeline", "add_elan", "add_textgrid",
+                                                   "__iter__", "add", "__init__")] + [CT + "Unit.__lt__"],
         oracles=[CT + "Continuum.to_csv"],
         bounded=[dict(oracle=CT + "Continuum.to_csv",
-                      what="add_annotation and from_rttm are proved over ASSUMED models of pyannote's Annotation (the list of its tracks) and of load_rttm "
-                           "(some dict uri -> Annotation); add_textgrid / add_elan are not under contract (third-party objects): generated TextGrid, "
+                      what="the readers' glue code (add_annotation, add_timeline, from_rttm, add_elan, add_textgrid) is proved over ASSUMED models of the "
+                           "third-party objects (pyannote Annotation / Timeline = their tracks / segments, load_rttm = some dict, pympi.Eaf = tier "
+                           "name -> annotations, textgrid.TextGrid = list of interval tiers, empty mark = None); the parsers themselves and the "
+                           "conformance of these models are exercised here: generated TextGrid, "
                            "ELAN and RTTM files (tier selections, both label modes, empty marks) read back against what was written; csv round trips "
                            "with delimiters , ; tab |, quotes, unicode, line feeds and carriage returns inside fields; zero-length rows")],
         design_ref="DESIGN.md section 4 C18 (X1-X5)",
